@@ -108,6 +108,8 @@ class Report:
     def _violation(self, group, r, key_prefix, replay):
         key = (key_prefix or group) + ":" + re.sub(r"\s+", "_", r["label"])
         key = re.sub(r"[^A-Za-z0-9_:.\-\[\]]", "", key)
+        key = re.sub(r"_cell_\d+", "", key)
+        key = re.sub(r"window_\d+", "window", key)
         v = {"key": key, "group": group, "label": r["label"], "model": r.get("model"), "replay": None, "reproduced": None}
         for old in self.violations:
             if old["key"] == key:
